@@ -26,6 +26,13 @@ extern "C" int LLVMFuzzerTestOneInput(const uint8_t *data, size_t size) {
 	uint32_t maxlen = sizeclass < 150 ? (1u << 14) : (sizeclass < 235 ? (1u << 18) : (3u << 20));
 	Recipe r = draw_recipe(c, maxlen, g.lz.dict_size);
 	if (sizeclass >= 235 && sizeclass < 250 && !g.use_preset && g.lz.dict_size <= (1u << 16) && r.len < (600u << 10)) r.len = (600u << 10) + (r.len & 0xFFFFF); // window slides: > 1.5*dict + 0.5 MiB
+	if (sizeclass >= 225 && sizeclass < 235) {
+		// > 2 MiB of input that compresses better than 32:1: the LZMA2 encoder closes a chunk because of the 2 MiB *uncompressed*
+		// size limit of the chunk header (the 64 KiB compressed-size limit is what ends chunks for all other inputs)
+		if (r.kind != RK_CONST && r.kind != RK_SHORT_PERIOD && r.kind != RK_ZERO_RUNS) r.kind = (r.seed & 1) ? RK_SHORT_PERIOD : RK_CONST;
+		if (r.kind == RK_SHORT_PERIOD) r.period = 1 + (r.period % 300);
+		r.len = (2u << 20) + 1 + (r.seed >> 8) % (1u << 20); count("input_over_2MiB_compressing_better_than_32_to_1");
+	}
 	std::vector<uint8_t> in = expand(r);
 	if (!g.pdict.empty() && c.rare(140) && ec::input_from_pdict_tail(c, g, in, 1u << 15)) { r.kind = RK_LITERAL; r.len = (uint32_t)in.size(); r.seed = hash_bytes(in.data(), in.size()); count("input_from_preset_dict_tail"); }
 	g.prepare_for_len(in.size()); ec::govern_cost(g, in.size());
